@@ -44,6 +44,24 @@ Theorem C12_pipe_suffix_irrelevant :
 Proof. exact pipe_suffix_irrelevant. Qed.
 Print Assumptions C12_pipe_suffix_irrelevant.
 
+(* in(..) is the OR of its members, for member filters of EVERY kind (keyword/path atom, range,
+   text value = conjunction of its words - any expression): the token list ( e1 or .. or en ) that
+   parseFilterIn / the glue produce parses to a query whose denotation is the disjunction of the
+   queries obtained by parsing each member as a stand-alone filter. *)
+Theorem C12_in_is_or_of_elements :
+  forall e1 es, exists t,
+    parse (in_toks e1 es) = Ok t /\
+    forall v, eval v t = existsb (fun e => eval v (finish (tree_of e))) (e1 :: es)
+              /\ (forall e, parse (render_min e) = Ok (finish (tree_of e))).
+Proof. exact in_is_or_of_elements. Qed.
+Print Assumptions C12_in_is_or_of_elements.
+
+Theorem C12_in_toks_shape :
+  forall e1 es,
+    in_toks e1 es = TLP :: (render_min e1 ++ flat_map (fun e => TOr :: render 1 e) es) ++ [TRP].
+Proof. exact in_toks_shape. Qed.
+Print Assumptions C12_in_toks_shape.
+
 (* Totality at token level: for EVERY token list (balanced or not) the parser returns a query or
    an error; the model's fuel (its only source of non-termination) is never exhausted. *)
 Theorem C12_parse_total_tokens : forall ts, parse ts <> OutOfFuel.
@@ -118,6 +136,18 @@ Theorem C12_lex_roundtrip_atoms :
     lex is_space is_letter is_digit (render_dq ws) = ROk (map dq_tok ws).
 Proof. exact lex_render_dq. Qed.
 Print Assumptions C12_lex_roundtrip_atoms.
+
+(* Glue: whatever parseFilterIn accepts is  ( m1 or m2 or .. or mn )  where EVERY member mi -
+   the first and all later ones alike - is what the stand-alone value filter
+   (parseFulltextSearchFilter) of the SAME field type t makes of its tokens: on a text field each
+   member is the conjunction of its words, on a keyword/path field one literal. *)
+Theorem C12_in_members_uniform :
+  forall (is_letter is_digit is_number : N -> bool) (t : N) ts l ts',
+    filter_in is_letter is_digit is_number t ts = ROk (l, ts') ->
+    exists e1 es, l = TLP :: e1 :: or_members es ++ [TRP] /\
+                  Forall (made_by is_letter is_digit is_number t) (e1 :: es).
+Proof. exact filter_in_shape. Qed.
+Print Assumptions C12_in_members_uniform.
 
 (* non-vacuity, with ASCII class functions and a mapping k = keyword, t = text:
    k:"a\*b*" and not t:'x y' # c   parses; the unterminated  k:"a\"  lexes to six one-byte tokens
